@@ -409,18 +409,23 @@ func (k *Checker[C]) Eval(c C) *Failure {
 		nt = false
 		labels = append(labels, "nontrivial-but-inside-grid-domain(not-hashed)")
 	}
+	var encoded []byte
 	st.record(nt, labels, func() []byte {
+		encoded = k.encode(c)
 		if k.Key != nil {
 			return k.Key(c)
 		}
-		return k.encode(c)
+		return encoded
 	})
-	pending := ""
-	if k.Risky != nil && k.Risky(c) {
-		pending = filepath.Join(OutDir(), fmt.Sprintf("pending-%d.json", os.Getpid()))
-		fc := FileCase{Property: k.ID, Kind: "process-death", Message: "the process died while this case was being executed", Case: k.encode(c)}
-		b, _ := json.Marshal(fc)
-		_ = writeAtomic(pending, b)
+	// pending-case file: if the process dies inside Check (stack overflow, out of
+	// memory, fatal runtime error) the driver finds the case that was running.
+	// Always on for Risky cases; otherwise on for non-trivial cases (already encoded).
+	armed := false
+	if (k.Risky != nil && k.Risky(c)) || encoded != nil {
+		if encoded == nil {
+			encoded = k.encode(c)
+		}
+		armed = armPending(k.ID, encoded)
 	}
 	var f *Failure
 	if pf := Try("harness check", func() { f = k.Check(c) }); pf != nil {
@@ -428,8 +433,8 @@ func (k *Checker[C]) Eval(c C) *Failure {
 		Infra("panic inside the harness check (outside guarded calls): " + pf.Msg)
 		f = nil
 	}
-	if pending != "" {
-		_ = os.Remove(pending)
+	if armed {
+		disarmPending()
 	}
 	if f != nil {
 		k.writeFail(c, f)
@@ -451,6 +456,34 @@ func (k *Checker[C]) writeFail(c C, f *Failure) {
 	// last failing case wins: rapid (and the native fuzzer's minimiser) re-run
 	// the property on ever smaller cases and finish with the minimal one.
 	_ = writeAtomic(filepath.Join(OutDir(), "fail.json"), b)
+}
+
+var pendingFile *os.File
+
+// armPending writes the running case in place into pending-<pid>.json (two
+// cheap syscalls, no rename); disarmPending truncates it. A non-empty file
+// after the process died names the case that killed it.
+func armPending(id string, encoded []byte) bool {
+	if pendingFile == nil {
+		f, err := os.OpenFile(filepath.Join(OutDir(), fmt.Sprintf("pending-%d.json", os.Getpid())), os.O_CREATE|os.O_RDWR|os.O_TRUNC, 0o644)
+		if err != nil {
+			return false
+		}
+		pendingFile = f
+	}
+	head := []byte(`{"property":"` + id + `","kind":"process-death","message":"the test process died (fatal runtime error) while this case was being executed","case":`)
+	buf := make([]byte, 0, len(head)+len(encoded)+1)
+	buf = append(append(append(buf, head...), encoded...), '}')
+	if _, err := pendingFile.WriteAt(buf, 0); err != nil {
+		return false
+	}
+	return pendingFile.Truncate(int64(len(buf))) == nil
+}
+
+func disarmPending() {
+	if pendingFile != nil {
+		_ = pendingFile.Truncate(0)
+	}
 }
 
 // Infra records a harness/infrastructure problem (driver maps it to exit 2).
